@@ -222,3 +222,17 @@ func startHTTPServer(dir, pin string, accs ...*accessory.Accessory) (*Transport,
 	}
 	return tr, nil
 }
+
+// WaitEncrypted blocks until the server has promoted the secure session of the connection with this client-side
+// address (its next read is then a decrypting read), at most one second. A controller that sends its first
+// encrypted request in the window between the V4 response and that promotion can lose it (DESIGN.md D16: net/http's
+// plaintext background read consumes the first ciphertext byte); every harness that is not about that window waits.
+func (t *Transport) WaitEncrypted(local string) bool {
+	for i := 0; i < 2000; i++ {
+		if s, ok := t.Ctx.Get(local).(hap.Session); ok && s != nil && s.Encrypter() != nil {
+			return true
+		}
+		time.Sleep(500 * time.Microsecond)
+	}
+	return false
+}
